@@ -1,3 +1,4 @@
 //! Reference models.
 pub mod dates;
+pub mod formula;
 pub mod sheet;
